@@ -1,16 +1,16 @@
 #!/bin/bash
 # dbg.sh <domain> [seed] [tier]: run harness + driver and show the first failures (development aid)
 D=$1; S=${2:-1}; T=${3:-quick}
-cd /verif
+V=${VERIF_ROOT:-$(cd "$(dirname "${BASH_SOURCE[0]}")/.." && pwd)}; export V; cd $V
 timeout 600 build/bin/harness $D -seed $S -tier $T -out build/$D.script -stats build/$D.stats || { echo HARNESS-CRASH; exit 1; }
 lean/.lake/build/bin/driver < build/$D.script > build/$D.model
 python3 - "$D" <<'PY'
 import sys
-sys.path.insert(0,'/verif/tools')
+import os; V=os.environ['V']; sys.path.insert(0,V+'/tools')
 import verif
 m=sys.argv[1]
-lines=open(f'/verif/build/{m}.script').read().splitlines()
-ans=open(f'/verif/build/{m}.model').read().splitlines()
+lines=open(V+f'/build/{m}.script').read().splitlines()
+ans=open(V+f'/build/{m}.model').read().splitlines()
 fails=verif.diff_streams(lines,ans)
 fails.sort(key=lambda f: 0 if f['kind']=='protocol' else 1 if f['kind']=='violation' else 2)
 print(m,'lines',len(lines),'fails',len(fails), {k:sum(1 for f in fails if f['kind']==k) for k in ('protocol','violation','drift')})
